@@ -150,7 +150,12 @@ func (f *futureProcess[M]) DeliveryUserMessage(receiver, sender, forward *prc.Pr
 		return
 	}
 
-	switch m := message.(type) {
+	// replies arrive wrapped (*prc.MessageWrapper): an error reply is the wrapper's payload
+	reply := message
+	if wrapper, ok := message.(*prc.MessageWrapper); ok {
+		reply = wrapper.Message
+	}
+	switch m := reply.(type) {
 	case error:
 		f.Close(m)
 	default:
